@@ -147,7 +147,8 @@ type Opt struct {
 	StdinPieces int
 	// StdinKind selects what the child's standard input is: "" or "pipe" (default), "file" (a regular file
 	// at offset 0), "fileoffset" (a regular file whose first line another reader has consumed already),
-	// "socket" (one end of a socket pair), "pty" (a terminal: the bytes are typed, then the end-of-file key as
+	// "socket" (one end of a socket pair), "eio" (the bytes, then a read error instead of end of input: the
+	// master side of a pseudo terminal whose other side wrote them and was closed), "pty" (a terminal: the bytes are typed, then the end-of-file key as
 	// often as the reader asks, up to 40 times) or "pty1" (the end-of-file key is pressed exactly once).
 	StdinKind string
 	// IdleAfter overrides the runner's delay before a lingering child is sampled for "blocked".
@@ -177,7 +178,8 @@ func (r *Runner) Run(o Opt, args ...string) *Result {
 	shArgs := append([]string{"-c", fmt.Sprintf("%s; exec \"$0\" \"$@\" %s", limits, o.Redirect), bin}, args...)
 	cmd := exec.CommandContext(ctx, "/bin/sh", shArgs...)
 	cmd.Dir = o.Dir
-	cmd.Env = append([]string{"PATH=/usr/bin:/bin", "HOME=/nonexistent", "LANG=C"}, r.Env...)
+	// no usable temporary directory: crd has no business creating temporary files
+	cmd.Env = append([]string{"PATH=/usr/bin:/bin", "HOME=/nonexistent", "LANG=C", "TMPDIR=/nonexistent/verif-no-tmpdir"}, r.Env...)
 	cmd.Env = append(cmd.Env, o.Env...)
 	var after []func()
 	defer func() {
@@ -443,6 +445,8 @@ func specialStdin(kind string, data []byte) (*os.File, func(), error) {
 			syscall.Shutdown(fds[1], syscall.SHUT_WR)
 		}()
 		return child, func() { child.Close(); syscall.Shutdown(fds[1], syscall.SHUT_RDWR); <-done; syscall.Close(fds[1]) }, nil
+	case "eio":
+		return eioStdin(data)
 	case "pty":
 		return ptyStdin(data, 40)
 	case "pty1":
@@ -540,4 +544,43 @@ func ptyStdin(data []byte, eofKeys int) (*os.File, func(), error) {
 		}
 	}()
 	return t, func() { close(stop); <-done; t.Close(); m.Close() }, nil
+}
+
+// eioStdin returns a descriptor that delivers data and then fails with EIO: the master side of a pseudo
+// terminal whose terminal side wrote the data (in raw mode) and was closed.
+func eioStdin(data []byte) (*os.File, func(), error) {
+	m, err := os.OpenFile("/dev/ptmx", os.O_RDWR|syscall.O_NOCTTY, 0)
+	if err != nil {
+		return nil, nil, err
+	}
+	var n uint32
+	var unlock int32
+	if _, _, e := syscall.Syscall(syscall.SYS_IOCTL, m.Fd(), syscall.TIOCSPTLCK, uintptr(unsafe.Pointer(&unlock))); e != 0 {
+		m.Close()
+		return nil, nil, e
+	}
+	if _, _, e := syscall.Syscall(syscall.SYS_IOCTL, m.Fd(), syscall.TIOCGPTN, uintptr(unsafe.Pointer(&n))); e != 0 {
+		m.Close()
+		return nil, nil, e
+	}
+	t, err := os.OpenFile(fmt.Sprintf("/dev/pts/%d", n), os.O_RDWR|syscall.O_NOCTTY, 0)
+	if err != nil {
+		m.Close()
+		return nil, nil, err
+	}
+	var tio syscall.Termios
+	if _, _, e := syscall.Syscall(syscall.SYS_IOCTL, t.Fd(), syscall.TCGETS, uintptr(unsafe.Pointer(&tio))); e == 0 {
+		tio.Oflag &^= syscall.OPOST // no output processing: the bytes arrive as written
+		syscall.Syscall(syscall.SYS_IOCTL, t.Fd(), syscall.TCSETS, uintptr(unsafe.Pointer(&tio)))
+	}
+	if len(data) > 3000 {
+		data = data[:3000]
+	}
+	if _, err := t.Write(data); err != nil {
+		t.Close()
+		m.Close()
+		return nil, nil, err
+	}
+	t.Close()
+	return m, func() { m.Close() }, nil
 }
